@@ -65,6 +65,7 @@ pub fn envprobe(args: &[String]) {
     let out = std::io::stdout();
     let mut o = std::io::BufWriter::new(out.lock());
     match args[0].as_str() {
+        "absio" => super::absprop::absio_child(),
         "expand" => {
             let max: usize = args[1].parse().unwrap();
             let _ = std::env::set_current_dir("/");
